@@ -5,7 +5,7 @@ attached to every property of which it is a necessary condition."""
 from __future__ import annotations
 
 import ast
-from typing import Dict, List, Optional, Set, Tuple
+from typing import Iterable, Dict, List, Optional, Set, Tuple
 
 from ..core import AnalysisError, ClassInfo, FuncInfo, Repo, dotted
 from .. import au, pat
@@ -366,15 +366,18 @@ class Retag:
 # --------------------------------------------------------------------------
 
 
-def prov(fn: ast.AST, e: ast.AST, depth: int = 8) -> ast.AST:
+def prov(fn: ast.AST, e: ast.AST, depth: int = 8, keep: Iterable[str] = ()) -> ast.AST:
     """Provenance of a value: `e` with every singly-bound local replaced by its defining expression
     (pure or not), recursively.  Names of temporaries and the number of intermediate steps vanish.
     Use only to ask where a value comes from, never to duplicate evaluation."""
-    return au.expand(e, au.local_defs(fn), depth=depth)
+    env = au.local_defs(fn)
+    if keep:
+        env = {k: v for k, v in env.items() if k not in set(keep)}
+    return au.expand(e, env, depth=depth)
 
 
-def prov_text(fn: ast.AST, e: ast.AST, depth: int = 8) -> str:
-    return ast.unparse(prov(fn, e, depth))
+def prov_text(fn: ast.AST, e: ast.AST, depth: int = 8, keep: Iterable[str] = ()) -> str:
+    return ast.unparse(prov(fn, e, depth, keep))
 
 
 def cond_match(fn: ast.AST, node: ast.AST, pattern: str, pol: bool = True, use_prov: bool = True) -> bool:
@@ -576,7 +579,13 @@ def raises_under(fn: ast.AST, assumptions: List[Tuple[str, bool]], noret=frozens
     (propositionally, over the path conditions of the canonical form)."""
     prem = [(parse_cond(t), p) for t, p in assumptions]
     for r in raising_leaves(fn, noret):
-        if conds_imply(prem, path_conditions(fn, r)) is True:
+        pcs = path_conditions(fn, r)
+        if conds_imply(prem, pcs) is True:
+            return True
+        # the same with flag locals replaced by what they were computed from
+        if conds_imply(prem, [(prov(fn, t), p) for t, p in pcs]) is True:
+            return True
+        if conds_imply(prem, resolved_conditions(fn, pcs)) is True:
             return True
     return False
 
@@ -601,14 +610,62 @@ def _contradict(c1, c2) -> bool:
     return any(id(t) in d and d[id(t)] != p for t, p in c2)
 
 
-def alternatives(fn: ast.AST, e: ast.AST, conds: List[Tuple[ast.AST, bool]], depth: int = 5) -> List[Tuple[ast.AST, List[Tuple[ast.AST, bool]]]]:
+_cfg_cache: Dict[int, object] = {}
+
+
+def _cfg_of(fn: ast.AST):
+    from ..cfg import CFG
+
+    k = id(fn)
+    if k not in _cfg_cache:
+        _cfg_cache[k] = (fn, CFG(fn, lambda n: False))  # keep fn alive so that the id stays unique
+    return _cfg_cache[k][1]
+
+
+def _cfg_node_at(fn: ast.AST, node: ast.AST):
+    """The CFG node in which `node` (a statement or an expression inside one) is evaluated."""
+    cfg = _cfg_of(fn)
+    par = au.parents(fn)
+    x = node
+    while x is not None:
+        ns = cfg.nodes_for(x)
+        if ns:
+            # an expression that is the test of an if/while belongs to the test node, not to a statement of a branch
+            return ns[0]
+        x = par.get(x)
+    return None
+
+
+def reaching_values(fn: ast.AST, name: str, at: ast.AST) -> Optional[List[Tuple[ast.AST, List[Tuple[ast.AST, bool]]]]]:
+    """The plain assignments `name = <expr>` that may reach the evaluation of `at`, with the path conditions of
+    each; None when some other kind of binding (parameter, loop variable, unpacking, augmented assignment) reaches."""
+    from ..cfg import reaching_defs, def_value
+
+    cfg = _cfg_of(fn)
+    cn = _cfg_node_at(fn, at)
+    if cn is None:
+        return None
+    ids = reaching_defs(cfg, name)[cn.id]
+    out = []
+    for d in sorted(ids):
+        if d == -1:
+            return None
+        v = def_value(cfg.nodes[d], name)
+        if v is None:
+            return None
+        out.append((v, path_conditions(fn, cfg.nodes[d].ast), cfg.nodes[d].ast))
+    return out
+
+
+def alternatives(fn: ast.AST, e: ast.AST, conds: List[Tuple[ast.AST, bool]], depth: int = 5, at: Optional[ast.AST] = None) -> List[Tuple[ast.AST, List[Tuple[ast.AST, bool]]]]:
     """The values `e` can take at a use governed by `conds`, as [(expression over parameters, conditions)]:
     singly-bound locals are replaced by their definition; a local bound on several branches (the canonical
     form of a conditional expression, or of per-branch temporaries) gives one alternative per definition that
-    does not contradict the conditions collected so far; conditional expressions are split."""
-    import copy as _c
-
+    reaches the use (reaching definitions on the CFG when the place of use `at` is known — `e` itself when it is
+    a node of fn) and does not contradict the conditions collected so far; conditional expressions are split."""
     env = au.local_env(fn)
+    if at is None and any(x is e for x in ast.walk(fn)):
+        at = e
     e = au.expand(e, env)
     if depth <= 0:
         return [(e, list(conds))]
@@ -618,25 +675,43 @@ def alternatives(fn: ast.AST, e: ast.AST, conds: List[Tuple[ast.AST, bool]], dep
             out = []
             for val, pol in ((n.body, True), (n.orelse, False)):
                 e2 = _replace(e, n, val)
-                out += alternatives(fn, e2, list(conds) + [(n.test, pol)], depth - 1)
+                out += alternatives(fn, e2, list(conds) + [(n.test, pol)], depth - 1, at)
             return out
         if isinstance(n, ast.Name) and isinstance(n.ctx, ast.Load) and n.id not in env and n.id not in params:
-            defs = []
-            for st in au.walk_no_nested(fn):
-                if isinstance(st, ast.Assign) and len(st.targets) == 1 and isinstance(st.targets[0], ast.Name) and st.targets[0].id == n.id:
-                    defs.append((st.value, path_conditions(fn, st)))
-            if len(defs) >= 2:
+            defs = None
+            if at is not None:
+                rv = reaching_values(fn, n.id, at)
+                if rv is not None:
+                    defs = [(v, cds, st) for v, cds, st in rv]
+            if defs is None:
+                defs = []
+                for st in au.walk_no_nested(fn):
+                    if isinstance(st, ast.Assign) and len(st.targets) == 1 and isinstance(st.targets[0], ast.Name) and st.targets[0].id == n.id:
+                        defs.append((st.value, path_conditions(fn, st), st))
+                if len(defs) < 2:
+                    defs = []
+            if defs:
                 out = []
-                for v, cds in defs:
+                for v, cds, st in defs:
                     if _contradict(cds, conds):
                         continue
                     if any(isinstance(x, ast.Name) and x.id == n.id for x in ast.walk(v)):
                         continue  # re-binding in terms of itself (x = f(x)): not a plain alternative
                     merged = list(conds) + [c for c in cds if (id(c[0]), c[1]) not in {(id(t), p) for t, p in conds}]
-                    out += alternatives(fn, _replace(e, n, v), merged, depth - 1)
+                    out += alternatives(fn, _replace(e, n, v), merged, depth - 1, st)
                 if out:
                     return out
     return [(e, list(conds))]
+
+
+def resolved_conditions(fn: ast.AST, conds: List[Tuple[ast.AST, bool]]) -> List[Tuple[ast.AST, bool]]:
+    """Path conditions with the locals in each test replaced by the single definition that reaches the test
+    (flow-sensitively); tests whose locals have several reaching definitions are kept as written."""
+    out = []
+    for t, pol in conds:
+        alts = alternatives(fn, t, [], at=t)
+        out.append((alts[0][0], pol) if len(alts) == 1 else (t, pol))
+    return out
 
 
 def _replace(root: ast.AST, old: ast.AST, new: ast.AST) -> ast.AST:
